@@ -108,7 +108,7 @@ prop('C02', units=['cmp', 'core', 'scale', 'digits', 'pow10'], level='proof',
                  '(check_equality_bigdecimal_ref) is proved on its real body to return true exactly when the two denoted numbers are equal -- sign screening, scale-gap overflow, '
                  'the bit-length pre-filter, the allocation-free u32-word loop with its multiply-and-carry (inductive invariant  b*10^k - a == 2^(32j) * (rest_b*10^k + carry - rest_a)), '
                  'its overflow fall-back, and the decimal-digit path for gaps >= 20 -- and free of overflow / failed unwrap / bad indexing (this found the tmp + carry defect, now fixed). '
-                 'Only the u64/u128 fast path compare_scalar_biguints of cmp is ASSUMED, not proved. Totality, antisymmetry and '
+                 'The u64/u128 fast path (compare_scalar_biguints and the generic compare_scaled_uints<T>) is proved generically over an assumed PrimInt trait contract, with the facts about T::try_from(&BigUint) as preconditions discharged for u64 and u128 at the two call sites. Totality, antisymmetry and '
                  'transitivity follow because the result is a function of the pair of denoted integers at a common scale (lemma_cmp_at)'),
      level_note=_NOTE_COMMON + ' Float axiom A2 for the bit-length pre-filter; 64-bit target (size_of usize == 8); the reversed digit iterator and the u32 word iterator are explicit-state stand-ins (R6).',
      technique=_TECH)
